@@ -27,6 +27,8 @@ def units(tier):
         H("C15", M, "check_roundtrip_backends", t, [R + "dumps", R + "set_loky_pickler"], "2 back-ends x 5 exemplar kinds"),
         H("C15", M, "check_scoping_3" if big else "check_scoping_2", 2400 if big else 600, [R + "set_loky_pickler", R + "dumps"],
           "2 back-ends x sequences of <=3 / <=2 picklers over 4 reducer sets"),
+        H("C15", M, "check_reducers_history_3" if big else "check_reducers_history_2", 1500 if big else 500, [R + "set_loky_pickler", R + "dumps", R + "register"],
+          "2 back-ends x histories of 2 (thorough: 2..3) requests x reducer function A/B x {earlier mapping dropped first (address reuse), same dict object with the function replaced, a new equal-keyed mapping}"),
         H("C15", "lokyverif.harness.c09_reusable", "check_factory_reducers", 300, ["loky.reusable_executor:_ReusablePoolExecutor.get_reusable_executor"],
           "'not other executors': a request whose reducers differ (none / job only / job + empty result reducers / both) never gets the executor built for other reducers under reuse='auto'"),
         H("C15", M, "check_simple_queue_put", t, ["loky.backend.queues:SimpleQueue.put"], "queue reducers given or not, write lock or not, send failing or not"),
